@@ -31,6 +31,7 @@ CONSTANTS
   VerifierStep = "first"
   RestoreMayFail = FALSE
   LockByHand = FALSE
+  CatchRefusals = FALSE
   ForeignReuse = TRUE
   AllocAt = "hint"
   MaxLives = 2
